@@ -85,14 +85,14 @@ void ModelClient::do_setfrag(int f, int uid)
 	send_b32('n', Bytes{(uint8_t)(uid >= 0 ? uid : userid), (uint8_t)(f >> 8), (uint8_t)f, (uint8_t)(cmc >> 8), (uint8_t)cmc});
 }
 
-void ModelClient::do_probe(int f)
+void ModelClient::do_probe(int f, int fillchars)
 {
 	cmc++;
 	std::string s = "r";
 	s += b32chr(((userid & 15) << 1) | ((f >> 10) & 1)); s += b32chr((f >> 5) & 31); s += b32chr(f & 31); s += 'd';
 	std::string fill;
-	for (int i = 0; i < 40; i++) fill += b32chr((cmc + i * 7) & 31);
-	send_name(s + fill);
+	for (int i = 0; i < fillchars; i++) fill += b32chr((cmc + i * 7) & 31);
+	send_name(dotify(s + fill, 57));
 }
 
 void ModelClient::do_rawlogin(const std::string &mode, const Addr *spoof)
@@ -303,7 +303,7 @@ void Models::do_op(const J &op)
 	else if (act == "l") m->do_login(op.gets("mode", "good"), uid, sp);
 	else if (act == "p") m->do_ping(sp, uid);
 	else if (act == "n") m->do_setfrag((int)op.geti("f", 100), uid);
-	else if (act == "r") m->do_probe((int)op.geti("f", 100));
+	else if (act == "r") m->do_probe((int)op.geti("f", 100), (int)op.geti("fill", 40));
 	else if (act == "i" || act == "s" || act == "o" || act == "y" || act == "z") {
 		std::string args = op.gets("args");
 		if (args.empty()) {
